@@ -128,10 +128,29 @@ fn apply<B: Builder>(b: &mut B, s: &Spec) {
                 }
             };
         }
+        // every `Into<Color>` route the crate offers is used: arrays, `&[u8]` slices, `Vec<u8>`,
+        // `&str` and `String`; which one is a deterministic function of the colour value, so a
+        // replay takes the same route
+        let route = match c {
+            Colour::Rgb(x) => x.iter().map(|&b| b as usize).sum::<usize>(),
+            Colour::Rgba(x) => x.iter().map(|&b| b as usize).sum::<usize>(),
+            Colour::Text(x) => x.len(),
+        };
         match c {
-            Colour::Rgb(x) => set!(*x),
-            Colour::Rgba(x) => set!(*x),
-            Colour::Text(x) => set!(x.as_str()),
+            Colour::Rgb(x) => match route % 3 {
+                0 => set!(*x),
+                1 => set!(&x[..]),
+                _ => set!(x.to_vec()),
+            },
+            Colour::Rgba(x) => match route % 3 {
+                0 => set!(*x),
+                1 => set!(&x[..]),
+                _ => set!(x.to_vec()),
+            },
+            Colour::Text(x) => match route % 2 {
+                0 => set!(x.as_str()),
+                _ => set!(x.clone()),
+            },
         }
     }
     if let Some(m) = s.margin {
